@@ -190,7 +190,7 @@ NEAR = Fr(1, 10 ** 9)
 MAXAMB = 4
 
 
-def clip_step(idx, X, Wt, nsig):
+def clip_step(idx, X, Wt, nsig, near=NEAR):
     """one clipping decision on subset idx.  Returns (kept-for-sure, ambiguous, exact_boundary)"""
     xs = [X[i] for i in idx]
     ws = [Wt[i] for i in idx] if Wt is not None else [Fr(1)] * len(idx)
@@ -214,7 +214,7 @@ def clip_step(idx, X, Wt, nsig):
             elif q == b2:
                 onb = True
         else:
-            if abs(q - b2) <= NEAR * max(q, b2):
+            if abs(q - b2) <= near * max(q, b2):
                 amb.append(i)
             elif q < b2:
                 sure.append(i)
@@ -222,7 +222,7 @@ def clip_step(idx, X, Wt, nsig):
 
 
 @functools.lru_cache(maxsize=64)
-def clip_levels(data, weights, nsig, maxiter=10):
+def clip_levels(data, weights, nsig, maxiter=10, near=NEAR):
     """levels[k] = set of states acceptable after k iterations.
 
     state = (kind, idx, nclip, exact_boundary_seen, ambiguity_seen);
@@ -240,7 +240,7 @@ def clip_levels(data, weights, nsig, maxiter=10):
             if kind != "run":
                 nxt.add(st)
                 continue
-            sure, amb, onb = clip_step(idx, X, Wt, nsig)
+            sure, amb, onb = clip_step(idx, X, Wt, nsig, near)
             onb = onb or onb0
             if len(amb) > MAXAMB:
                 nxt.add(("free-amb", idx, nclip, onb, True))
@@ -621,7 +621,7 @@ def main(ctx):
 
     _quiet_fd2 = []
 
-    def one_clip(case, rec):
+    def one_clip(case, rec, near=NEAR, tag_passes=False):
         cont, data, w, nsig, niter, get_err, get_ind = case
         arr, wts = clip_args(cont, data, w)
         extra = {}
@@ -647,7 +647,7 @@ def main(ctx):
         e = r[2] if get_err else None
         ind = r[-1] if get_ind else extra.get("indices")
         try:
-            levels = clip_levels(tuple(data), None if w is None else tuple(w), nsig)
+            levels = clip_levels(tuple(data), None if w is None else tuple(w), nsig, 10, near)
         except ZeroDivisionError:
             # some reachable subset has total weight zero: its weighted mean is undefined, the case is not constrained
             return rec.ok(case, outcome="subset-of-zero-total-weight:unconstrained", nontrivial=False, calls=1)
@@ -674,6 +674,8 @@ def main(ctx):
             return rec.fail(case, "surviving subset %r after niter=%d, nsig=%r; literal iteration gives %r"
                             % (sorted(ind), niter, nsig, sorted((k[0], list(k[1])) for k in states)))
         oc = clip_outcome(st, niter)
+        if tag_passes:
+            oc += "|discarding-passes=%d" % st[2]
         rec.ok(case, outcome=oc,
                nontrivial=bool(st[2] > 0 or st[3] or st[0] != "stop"), calls=1)
 
@@ -738,6 +740,68 @@ def main(ctx):
                             outliers=list(OUT), max_outliers=KOUT, orderings=["as built", "reversed"],
                             weights=["None", "ones", "ramp 0.5..2", "alternating 1,2"], nsig=list(NSIG),
                             niter=list(range(11)), flags_get_err_get_indices=[list(f) for f in FLAGS]))
+
+    # ------------------------------------------------------------------
+    # part 4b: sigma clipping, windows that barely move between passes.  A gross outlier of relative weight 10^-k
+    # (inverse-variance weight of a very noisy measurement) is discarded in one pass; that moves the clipping window by a
+    # relative amount of about weight*D^2/(2*W) - every decade from "a lot" down to below rounding.  A second point of
+    # small weight is placed relative to the old and the new upper edge of the window: inside both, in the sliver
+    # between them (the next pass must still discard it), outside both.  The positions are computed here from exact
+    # rational moments; the keep/discard decisions are the reference's (exact rationals, ambiguity band FINE on squares).
+    FINE = Fr(1, 10 ** 13)
+
+    def _edge(xs, ws, nsig):
+        X = [Fr(v) for v in xs]
+        Wt = [Fr(v) for v in ws]
+        wt = sum(Wt)
+        m = sum(a * b for a, b in zip(X, Wt)) / wt
+        var = sum(b * (a - m) ** 2 for a, b in zip(X, Wt)) / wt
+        return float(m) + nsig * math.sqrt(float(var))
+
+    def sliver_data(core, D, wout, wmar, frac, nsig, sign):
+        n = len(core)
+        xm = nsig * 1.0
+        for _ in range(12):
+            xs_new = list(core) + [xm]
+            ws_new = [1.0] * n + [wmar]
+            t_new = _edge(xs_new, ws_new, nsig)
+            t_old = _edge(xs_new + [D], ws_new + [wout], nsig)
+            xm = (1.0 - frac) * t_new + frac * t_old
+        data = tuple(sign * v for v in list(core) + [D, xm])
+        return data, tuple([1.0] * n + [wout, wmar])
+
+    SL_CORES = ((1.0, -1.0, 1.0, -1.0), (1.0, -1.0, 1.0, -1.0, 0.5, -0.5, 0.25, -0.25))
+    SL_D = (10.0, 100.0, 10000.0)
+    SL_K = (0, 3, 6, 8, 9, 10, 11, 12, 13, 14, 15, 16, 17, 18, 20)
+    SL_WMAR = (1e-3, 1e-9, 1e-15)
+    SL_FRAC = (-1.0, 0.5, 2.0)
+    SL_NSIG = (2.5, 4)
+    SL_NITER = ctx.pick((0, 1, 2, 3, 4, 10), tuple(range(11)))
+    unitss = []
+    for core in SL_CORES:
+        for D in SL_D:
+            for k in SL_K:
+                for wmar in SL_WMAR:
+                    for frac in SL_FRAC:
+                        for nsig in SL_NSIG:
+                            for sign in (1.0, -1.0):
+                                data, w = sliver_data(core, D, 10.0 ** -k, wmar, frac, nsig, sign)
+                                unitss.append((data, w, nsig))
+
+    def expands(u):
+        data, w, nsig = u
+        for flags in FLAGS:
+            for niter in SL_NITER:
+                yield ("f8", data, w, nsig, niter, flags[0], flags[1])
+
+    def one_clip_fine(case, rec):
+        return one_clip(case, rec, near=FINE, tag_passes=True)
+
+    ctx.lattice("sigma-clip-window-barely-moves", unitss, one_clip_fine, wstrict=True, expand=expands,
+                bounds=dict(cores=[list(c) for c in SL_CORES], outlier_at=list(SL_D),
+                            outlier_weight=["1e-%d" % k for k in SL_K], marginal_weight=list(SL_WMAR),
+                            marginal_position_in_sliver_units=list(SL_FRAC), nsig=list(SL_NSIG), mirrored=[False, True],
+                            niter=list(SL_NITER), flags_get_err_get_indices=[list(f) for f in FLAGS]))
 
     # ------------------------------------------------------------------
     # part 5: linear interpolation
